@@ -20,6 +20,7 @@ func init() {
 		Assumptions: []string{"locks are identified by access path (no aliasing of mutexes)", "sort.Slice/sort.Search and friends invoke their callback synchronously"},
 		Run:         runC11,
 		Controls: []Control{
+			{Name: "ramp-error-variable-read-after-go", File: "pkg/trait/lightpb/memory.go", Old: "\t\treturn startVal, nil\n", New: "\t\treturn startVal, err\n", Expect: "R11.12"},
 			{Name: "normalise-the-callers-paths-in-place", File: "pkg/masks/update.go", Old: "\tmask := &fieldmaskpb.FieldMask{Paths: append([]string(nil), paths...)}\n", New: "\tmask := &fieldmaskpb.FieldMask{Paths: paths}\n", Expect: "R11.9"},
 			{Name: "revert-F63-append-onto-callers-mask", File: "pkg/masks/util.go", Old: "\t\t\tout.Paths = append(out.Paths, path)\n", New: "\t\t\tout.Paths = append(mask.Paths, path)\n", Expect: "R11.8"},
 			{Name: "revert-F55-append-to-variadic", File: "pkg/trait/lightpb/model.go", Old: "\t\topts = append(append([]resource.WriteOption(nil), opts...), resource.WithMoreUpdatePaths(\"level_percent\"))", New: "\t\topts = append(opts, resource.WithMoreUpdatePaths(\"level_percent\"))", Expect: "R11.7"},
@@ -84,6 +85,7 @@ func runC11(c *an.Ctx) {
 	c.Min("R11.10", 1)
 	r1316as(c, "R11.11") // a message handed to the other side of a wrapped stream is a copy: the receiver merges from it after Send has returned (shared with R13.16)
 	c.Min("R11.11", 2)
+	r1112(c, "R11.12") // (no minimum: a goroutine body moved to a named method captures nothing; the control mutant keeps the rule honest)
 	c.Min("R11.7", 1)
 	c.Min("R11.1", 40)
 	c.Min("R11.2", 60)
@@ -946,4 +948,95 @@ func r119(c *an.Ctx, rule string) {
 		}
 	}
 	c.Count("normalize_calls", n)
+}
+
+// r1112: a variable that a goroutine writes is not read by the function that started it without a hand-over. For
+// each `go func() { … }()` whose body assigns a variable of the enclosing function (captured by reference), every
+// access to that variable the enclosing function makes AFTER the go statement is dominated by a receive, a select
+// or a WaitGroup.Wait that itself comes after the go statement. (lightpb's ramp: `lastObj, err = …` inside the
+// goroutine, `return startVal, err` after it - the value is still nil there, but the read races with every tick.)
+func r1112(c *an.Ctx, rule string) {
+	n := 0
+	for _, fn := range c.Prog.FuncsIn("") {
+		if !an.InModule(fn) || strings.HasSuffix(c.Prog.RelFile(fn.Pos()), "_test.go") || len(fn.Blocks) == 0 {
+			continue
+		}
+		for _, g := range an.GoStmts(fn) {
+			mc, ok := g.Call.Value.(*ssa.MakeClosure)
+			if !ok {
+				continue
+			}
+			body, _ := mc.Fn.(*ssa.Function)
+			if body == nil {
+				continue
+			}
+			for i, b := range mc.Bindings {
+				cell, isAlloc := b.(*ssa.Alloc)
+				if !isAlloc || i >= len(body.FreeVars) {
+					continue
+				}
+				fv := body.FreeVars[i]
+				written := false
+				for _, f := range an.WithClosures(body) {
+					an.Instrs(f, func(in ssa.Instruction) {
+						if st, isSt := in.(*ssa.Store); isSt && st.Addr == ssa.Value(fv) {
+							written = true
+						}
+					})
+				}
+				if !written {
+					continue
+				}
+				n++
+				// hand-overs after the go statement
+				var syncs []ssa.Instruction
+				an.Instrs(fn, func(in ssa.Instruction) {
+					switch x := in.(type) {
+					case *ssa.UnOp:
+						if x.Op == token.ARROW && an.Reaches(g, in) {
+							syncs = append(syncs, in)
+						}
+					case *ssa.Select:
+						if an.Reaches(g, in) {
+							syncs = append(syncs, in)
+						}
+					case *ssa.Call:
+						if strings.HasSuffix(an.CalleeName(x), "sync.WaitGroup).Wait") && an.Reaches(g, in) {
+							syncs = append(syncs, in)
+						}
+					}
+				})
+				var bad ssa.Instruction
+				an.Instrs(fn, func(in ssa.Instruction) {
+					var addr ssa.Value
+					switch x := in.(type) {
+					case *ssa.UnOp:
+						if x.Op == token.MUL {
+							addr = x.X
+						}
+					case *ssa.Store:
+						addr = x.Addr
+					}
+					if addr != ssa.Value(cell) || !an.Reaches(g, in) || in == ssa.Instruction(g) {
+						return
+					}
+					for _, s := range syncs {
+						if an.Dominates(s, in) {
+							return
+						}
+					}
+					bad = in
+				})
+				pos := g.Pos()
+				if bad != nil {
+					pos = bad.Pos()
+				}
+				c.SawFunc(an.FuncName(fn))
+				c.Check(bad == nil, rule, fmt.Sprintf("%s|%s, assigned by a goroutine, is not touched after the go statement without a hand-over", an.FuncName(fn), cell.Comment), pos, "",
+					"the variable "+cell.Comment+" is assigned inside a goroutine and accessed by the function that started it after the go statement, with no receive/select/Wait in between: the two accesses are unordered (a data race), whatever value happens to be read")
+			}
+		}
+	}
+	c.Count("variables_assigned_by_goroutines", n)
+	c.Ok(rule, "module|go statements with a function literal scanned", 0, fmt.Sprintf("%d variables assigned by goroutines", n))
 }
